@@ -69,6 +69,14 @@ class TraceVerdict:
         }
 
 
+def _strip_none(x):
+    if isinstance(x, dict):
+        return {k: _strip_none(v) for k, v in x.items() if v is not None}
+    if isinstance(x, list):
+        return [_strip_none(v) for v in x]
+    return x
+
+
 def validate(module, cfg, traces, batch=1500, timeout=3600, extra_env=None, wanted=None):
     """Validate all traces; returns (verdicts, tlc_stats)."""
     verdicts = []
@@ -78,7 +86,7 @@ def validate(module, cfg, traces, batch=1500, timeout=3600, extra_env=None, want
         d = tlc.scratch("cinco-trace-")
         path = os.path.join(d, "traces.json")
         with open(path, "w") as fp:
-            json.dump(chunk, fp)
+            json.dump(_strip_none(chunk), fp)  # (TLC's JSON reader rejects null)
         env = {"TRACE_FILE": path}
         if extra_env:
             env.update(extra_env)
